@@ -25,6 +25,8 @@ MenuDef == SetToSeq(
   \cup { ScanOp("c1", T1, NoIndex, NoFilter, <<>>, <<>>),
          QueryOp("c1", T1, NoIndex, Cmp("=", Path("h"), Val(":h")), NoFilter, <<>>, One(":h", S1(97)), TRUE),
          Describe("c1", T1), Transact,
+         [op |-> "BatchGet", c |-> "c1", reqs |-> <<[t |-> T1, keys |-> <<KA, KB>>]>>],
+         [op |-> "BatchGet", c |-> "c1", reqs |-> <<[t |-> T1, keys |-> <<KB>>], [t |-> T2, keys |-> <<KA>>]>>],
          BW(<<Req(T1, "put", KA @@ [v |-> Num(1)])>>), BW(<<Req(T1, "del", KA)>>),
          BW(<<Req(T1, "put", KA), Req(T1, "del", KB)>>),
          BW(<<Req(T1, "put", KA), Req(T2, "put", KB), Req(T1, "put", KB @@ [v |-> Num(1)]), Req(T2, "del", KA)>>),   \* two tables, two requests each
